@@ -78,6 +78,13 @@ impl Buildpack for Bp {
                     let c = call.as_array().unwrap();
                     b = match c[0].as_str().unwrap() {
                         "provides" => b.provides(c[1].as_str().unwrap()),
+                        // metadata handed over as a std HashMap (hash order differs per process)
+                        "requires_hashmap" => {
+                            let mut r = Require::new(c[1].as_str().unwrap());
+                            let m: std::collections::HashMap<String, String> = (0..c[2].as_u64().unwrap()).map(|i| (format!("key{i}"), format!("v{i}"))).collect();
+                            r.metadata(m).expect("metadata");
+                            b.requires(r)
+                        }
                         "requires" => {
                             let mut r = Require::new(c[1].as_str().unwrap());
                             if c.len() > 2 && !c[2].is_null() {
@@ -122,7 +129,15 @@ impl Buildpack for Bp {
                     b = b.launch(lb.build());
                 }
                 if let Some(s) = spec.get("store").filter(|s| !s.is_null()) {
-                    b = b.store(Store { metadata: toml_table_from_json(s) });
+                    let mut t = toml_table_from_json(s);
+                    if let Some(n) = spec.get("store_hashmap_keys").and_then(Value::as_u64) {
+                        // entries arriving in the iteration order of a std HashMap
+                        let m: std::collections::HashMap<String, String> = (0..n).map(|i| (format!("hk{i}"), format!("v{i}"))).collect();
+                        for (k, v) in m {
+                            t.insert(k, toml::Value::String(v));
+                        }
+                    }
+                    b = b.store(Store { metadata: t });
                 }
                 for f in jarr(spec, "build_sboms") {
                     b = b.build_sbom(Sbom::from_bytes(sbom_format(f.as_str().unwrap()), format!("{{\"build\":\"{}\"}}", f.as_str().unwrap())));
